@@ -24,6 +24,8 @@ import Driver.Roots
 import Driver.BLSAgg
 import Driver.Text
 import Driver.ExecEvents
+import Driver.ReqCtx
+import Driver.ReqLives
 import Driver.SMTImpl
 import Driver.CodecNFC
 
@@ -56,6 +58,8 @@ def main (args : List String) : IO UInt32 := do
   | ["C06BLS"] => Driver.BLSAgg.main; return 0
   | ["C09TEXT"] => Driver.Text.main; return 0
   | ["C16WIDE"] => Driver.ExecEvents.main; return 0
+  | ["C17CTX"] => Driver.ReqCtx.main; return 0
+  | ["C17LIVES"] => Driver.ReqLives.main; return 0
   | ["C10IMPL"] => Driver.SMTImpl.main; return 0
   | ["C08NFC"] => Driver.CodecNFC.main; return 0
   | ["C17"] => Driver.ReqResp.main; return 0
